@@ -48,12 +48,40 @@ theorem uniform_ends (low high : Rat) (n : Nat) (hn : 2 ≤ n) :
 
 /-! ### gaussian: values -/
 
-/-- the values of a Gaussian factor are `numpy.linspace(c − σ·L, c + σ·L, n)` (endpoint included) -/
+/-- the sample values of a Gaussian factor (model of the list `gaussian` builds) -/
+def gaussValuesList (sigma limit center : Rat) (n : Nat) : List Rat :=
+  if n = 1 then [center] else linspace (center - sigma * limit) (center + sigma * limit) n true
+
+/-- the values of a Gaussian factor are `numpy.linspace(c − σ·L, c + σ·L, n)` (endpoint included), except that a single
+sample sits at the centre (repaired in /repo 64524996: `linspace` with one sample returned the lower limit `c − σ·L`) -/
 theorem gaussian_values_spec (sigma limit center : Rat) (n : Nat) :
-    gaussianValues sigma limit center (n : Int) = .ok (linspace (center - sigma * limit) (center + sigma * limit) n true) := by
-  unfold gaussianValues gaussLow gaussHigh gaussNum
-  rw [linspaceI_nonneg]
-  congr 2 <;> ring
+    gaussianValues sigma limit center (n : Int) = .ok (gaussValuesList sigma limit center n) := by
+  unfold gaussianValues gaussSingle gaussLow gaussHigh gaussNum gaussValuesList
+  by_cases h1 : n = 1
+  · subst h1; simp
+  · have : ¬ ((n : Int) = 1) := by omega
+    simp only [this, decide_false, Bool.false_eq_true, if_false, h1]
+    rw [linspaceI_nonneg]
+    congr 2 <;> ring
+
+@[simp] theorem gaussValuesList_length (sigma limit center : Rat) (n : Nat) : (gaussValuesList sigma limit center n).length = n := by
+  unfold gaussValuesList; split
+  · rename_i h; subst h; rfl
+  · simp
+
+/-- **Symmetry about the centre, for every sample count `n ≥ 1`**: `v_i + v_{n−1−i} = 2c` (in particular the single sample of
+`n = 1` is the centre itself) -/
+theorem gaussian_values_symmetric (sigma limit center : Rat) (n : Nat) (i : Nat) (hi : i < n) :
+    (gaussValuesList sigma limit center n)[i]'(by simpa using hi)
+      + (gaussValuesList sigma limit center n)[n - 1 - i]'(by simp; omega) = 2 * center := by
+  unfold gaussValuesList
+  by_cases h1 : n = 1
+  · subst h1
+    have : i = 0 := by omega
+    subst this; simp; ring
+  · simp only [h1, if_false]
+    rw [linspace_reflect _ _ n i hi]
+    simp only [h1, if_false]; ring
 
 /-- **Symmetry about the centre**: value `i` and value `n−1−i` are mirror images, `v_i + v_{n−1−i} = 2c` -/
 theorem gaussian_symmetric (sigma limit center : Rat) (n : Nat) (hn : 2 ≤ n) (i : Nat) (hi : i < n) :
@@ -310,6 +338,7 @@ theorem outerFlat_two (a b : List ℝ) : outerFlat [a, b] = (outer a b).flatten 
 example : (match uniform 0 1 5 true false with | .ok d => d.values == [0, 1/4, 1/2, 3/4, 1] && d.weights == [1, 1, 1, 1, 1] | _ => false) = true := by
   decide +kernel
 example : (match gaussianValues 1 3 0 5 with | .ok v => v == [-3, -3/2, 0, 3/2, 3] | _ => false) = true := by decide +kernel
+example : (match gaussianValues 2 3 1 1 with | .ok v => v == [1] | _ => false) = true := by decide +kernel
 example : ∃ w : List ℝ, w ≠ [] ∧ ∀ x ∈ w, 0 < x := ⟨[1, 2], by simp, by intro x hx; simp at hx; rcases hx with rfl | rfl <;> norm_num⟩
 example : (match divide ({ values := [1, 2, 3], weights := [1, 1, 1], ensembleMean := true } : Distributions.Dist Rat) [2, 1] with
     | .ok bs => bs.map (fun b => b.values) == [[1, 2], [3]] | _ => false) = true := by decide +kernel
